@@ -32,6 +32,8 @@ type pruneAtom struct {
 	Op string `json:"op"`
 	C  int    `json:"c"`
 	C2 int    `json:"c2"`
+	U  string `json:"u"` // R atoms: interval unit as written
+	N  int    `json:"n"` // R atoms: interval amount as written
 }
 
 type pruneTree struct {
@@ -88,8 +90,8 @@ type c18Result struct {
 var (
 	day0     = time.Date(2020, 1, 3, 0, 0, 0, 0, time.UTC)
 	fixedNow = day0.Add(36 * time.Hour)
-	fileHour = map[string]int{"hP": -91, "h1": 1, "h2": 2, "h23": 23, "h24": 24, "h25": 25, "hF": 108}
-	fileIdx  = map[string]int{"hP": 1, "h1": 2, "h2": 3, "h23": 4, "h24": 5, "h25": 6, "hF": 7, "d0": 8, "d1": 9}
+	fileHour = map[string]int{"hP": -91, "h1": 1, "h2": 2, "h23": 23, "h24": 24, "h25": 25, "hF": 108, "hM": -700, "hN": 770}
+	fileIdx  = map[string]int{"hP": 1, "h1": 2, "h2": 3, "h23": 4, "h24": 5, "h25": 6, "hF": 7, "d0": 8, "d1": 9, "hM": 10, "hN": 11}
 )
 
 func hourTime(h int) time.Time { return day0.Add(time.Duration(h) * time.Hour) }
@@ -172,7 +174,22 @@ func renderAtom(a *pruneAtom, p string, style int) string {
 		if style%2 == 1 {
 			now = "CURRENT_TIMESTAMP"
 		}
-		return fmt.Sprintf("%stime %s %s - INTERVAL '%d hours'", p, opText[a.Op], now, a.C)
+		sign, amount, unit := "-", a.N, a.U
+		if a.C < 0 {
+			sign = "+"
+		}
+		if unit == "" {
+			amount, unit = a.C, "hours"
+		}
+		if unit == "hours" && amount%24 == 0 && style%3 == 0 { // fixed-length units: same arithmetic, other regex alternative
+			amount, unit = amount/24, "days"
+		} else if unit == "hours" && style%3 == 1 {
+			amount, unit = amount*60, "minutes"
+		}
+		if amount == 1 {
+			unit = strings.TrimSuffix(unit, "s")
+		}
+		return fmt.Sprintf("%stime %s %s %s INTERVAL '%d %s'", p, opText[a.Op], now, sign, amount, unit)
 	}
 	return "TRUE"
 }
